@@ -20,6 +20,11 @@ CLAIMED = {
    text='Proof. For Line/Quadratic/Cubic: reversed().point(u)=point(1-u) and reversed control points; split(t) pieces are the restrictions to [0,t],[t,1] and meet at point(t); cropped(0,t1), cropped(t0,1) and interior cropped(t0,t1) are point(t0+u(t1-t0)) (field identity, 1-t0 != 0), all as polynomial identities over any field of characteristic 0 on definitions regenerated from the running code. Path.reversed: order/involution/length lemmas. Path.cropped: hand model (T2t lookups, isclose snaps, three assembly branches, wrap-around) executed against the real method on stub segments with exact Fraction lengths (incl. equal segments, joints, T within 1e-10 of joints); the pre-repair behaviour for T1=0 is refuted by a kernel-checked witness. Sampler on real segments/paths of all four kinds incl. arcs.',
    note='Trusted: kernel + standard axioms; translator; correspondence runner. Not yet a theorem: the general statement that the pieces of Path.cropped cover exactly length(T0,T1) (checked by correspondence + sampler; witness theorems only). Arc.reversed/cropped rest on C04 and the sampler.',
    ref='7 C09'),
+ 'C10': dict(
+   technique='Lean 4 proof: ring/field identities on translate/rotate/scale/transform traced from path.py in ring mode and coordinate mode; law-free list theorem for joint preservation on a hand model tied by exact correspondence',
+   text='Proof. For Line/Quadratic/Cubic the traced translated/rotated (explicit and default origin, w = exp(i*rad))/scaled (uniform, default origin; non-uniform coordinate-wise)/transform (every 2x3 affine matrix, invertible or not) are proved to commute with point evaluation as polynomial identities over any field of characteristic 0; for arcs the defining data handed to Arc() is proved to be the image of the old data with flags unchanged. transform_segments_together: for any per-segment transformation, every joint that coincided exactly (cyclically, incl. the closing joint) coincides exactly afterwards (law-free theorem on the model; model run against the real function every run). Sampler: all kinds incl. arcs, negative/small scales, reflection/shear/product/near-identity matrices, closed paths; non-uniform scaled() of an arc must raise.',
+   note='Trusted: kernel + standard axioms; translator (numpy.exp/radians replaced by an opaque unit w); correspondence runner. Known finding F8 (transform() on arcs raises TypeError for every matrix) is reported as KNOWN-FINDING, not claimed. That an Arc is determined by its defining data is C04.',
+   ref='7 C10'),
  'C19': dict(
    technique='Lean 4 proof: per-degree ring identities on definitions regenerated from bezier.py by a tracing translator; list-induction theorems on a hand model of the polyroots filter tied by exact (rational) correspondence',
    text='Proof. For degrees 0..8 the traced bezier_point / bezier2polynomial / polynomial2bezier / split_bezier / halve_bezier are proved equal to the Bernstein form over every field of characteristic 0 (369 theorems, regenerated definitions, `ring`). The root filter after np.roots is proved to keep every isolated candidate exactly once and to return a pairwise non-close sublist, for all lists and all closeness relations; the model is executed against the real polyroots01/rational_limit on exact rationals every run. A float sampler on the real code backs the clauses proof cannot reach (rounding, np.roots).',
